@@ -21,8 +21,14 @@ def _subject32(ctx, tag, cc, flags, cfg):
         return os.path.join(d, "subject")
     os.makedirs(d, exist_ok=True)
     cfgd = ctx.make_config("ilp32-" + tag, cfg)
-    base = [cc, "-m32", "-std=gnu99", "-ffreestanding", "-fno-stack-protector", "-fno-pie", "-DHAVE_CONFIG_H", "-D" + core.GUARD,
-            "-I" + cfgd, "-isystem", INC, "-I" + REPO + "/src"] + list(flags)
+    # -nostdinc: only the compiler's own freestanding headers (stdint.h, stddef.h, limits.h) and the shims are visible;
+    # the host's /usr/include belongs to a different ABI and must not be picked up by __has_include or by accident
+    if cc == "gcc":
+        cinc = ctx.sh(["gcc", "-m32", "-print-file-name=include"]).stdout.decode().strip()
+    else:
+        cinc = os.path.join(ctx.sh(["clang", "-print-resource-dir"]).stdout.decode().strip(), "include")
+    base = [cc, "-m32", "-std=gnu99", "-ffreestanding", "-nostdinc", "-fno-stack-protector", "-fno-pie", "-DHAVE_CONFIG_H", "-D" + core.GUARD,
+            "-I" + cfgd, "-isystem", INC, "-isystem", cinc, "-I" + REPO + "/src"] + list(flags)
     objs = []
     from concurrent.futures import ThreadPoolExecutor
 
@@ -72,7 +78,14 @@ def ilp32_monitor(ctx, sections, memcheck=False):
     for tag, cc, fl, cfg in subjects(ctx):
         if rp and rp.get("build") != tag:
             continue
-        subs.append((tag, _subject32(ctx, tag, cc, fl, cfg)))
+        try:
+            subs.append((tag, _subject32(ctx, tag, cc, fl, cfg)))
+        except core.Inconclusive as e:
+            # the shim environment is not a full 32-bit sysroot: sources that need more than it offers cannot be built for
+            # ILP32 here.  That is a limit of this supplementary monitor, not a verdict; the rest of the check decides.
+            ctx.count("ilp32_builds_not_possible", 1)
+            if len(ctx.info) < 40:
+                ctx.info.append("ILP32 build %s not possible in the shim environment: %s" % (tag, str(e)[-400:].replace("\n", " | ")))
     if not rp or rp.get("build") == "lp64-control":
         ctl = os.path.join(d, "control")
         if not os.path.exists(ctl):
